@@ -420,6 +420,12 @@ def _load_known() -> list[dict]:
     if os.path.exists(p):
         with open(p) as f:
             out += json.load(f).get("findings", [])
+    # proposals written by property builders, merged into known_findings.json by the integrator
+    import glob
+    for q in sorted(glob.glob(os.path.join(ROOT, "known_pending", "*.json"))):
+        with open(q) as f:
+            d = json.load(f)
+        out += d.get("findings", d) if isinstance(d, dict) else d
     return out
 
 
